@@ -3,3 +3,4 @@ import Fadl.Lemmas.Mono
 import Fadl.Props.C15
 import Fadl.Props.C17
 import Fadl.Props.C19
+import Fadl.Props.C20
